@@ -8,6 +8,7 @@ import itertools
 from .. import muts as MU
 from .. import universe as U
 from ..acc import Acc
+from .. import argforms as AF
 from ..ref import geno as G
 from ..ref.trees import NULL, RefTS
 
@@ -207,9 +208,14 @@ def check_A(m, placement, times_mode, cfg, acc, anc="0"):
         nonsample = samples is not None and any(not rts.flags[u] for u in samples)
         must_fail = dup or (nonsample and iam)
         kinds = [expected_for(rts, j, nodes, iam, alleles_arg)[0] for j in sids]
+        kwc = dict(kw)
+        if samples is not None:
+            # the sample list in one of the forms a caller may pass (deterministic in the list)
+            form, kwc["samples"] = AF.pick(samples, salt=int(iam))
+            acc.count("argform_" + form)
         try:
             got = []
-            for v in ts.variants(**kw):
+            for v in ts.variants(**kwc):
                 if not copy:
                     v = v.copy()
                 got.append(v)
@@ -289,6 +295,34 @@ def check_A(m, placement, times_mode, cfg, acc, anc="0"):
                        for u in nodes]
                 if H != exp:
                     acc.fail("haplotypes:value", f"{H} expected {exp}", case)
+    # genotype_matrix with a user allele mapping follows the same rule as variants(alleles=...)
+    for al in ALLELE_ARGS[1:]:
+        for iam in (True, False):
+            case = dict(case0, matrix={"samples": None, "iam": iam, "alleles": list(al)})
+            acc.ev(1, nt or nsites > 0)
+            kinds = [expected_for(rts, j, S, iam, al) for j in range(nsites)]
+            try:
+                Gm = ts.genotype_matrix(isolated_as_missing=iam, alleles=al)
+                gerr = None
+            except Exception as e:  # noqa
+                Gm, gerr = None, e
+            if any(k[0] == "error" for k in kinds):
+                if gerr is None:
+                    acc.fail("genotype_matrix:allele-not-found-accepted",
+                             f"alleles={al} lacks a needed allele but genotype_matrix succeeded", case)
+                continue
+            if gerr is not None:
+                if not any(k[0] == "maybe-error" for k in kinds):
+                    acc.fail("genotype_matrix:alleles-error", repr(gerr), case)
+                continue
+            if Gm.shape != (nsites, len(S)):
+                acc.fail("genotype_matrix:shape", str(Gm.shape), case)
+                continue
+            for j in range(nsites):
+                row = [None if g == -1 else (al[g] if 0 <= g < len(al) else ("BAD-INDEX", g)) for g in Gm[j].tolist()]
+                if row != kinds[j][1]:
+                    acc.fail("genotype_matrix:alleles-row", f"site {j} alleles={al} iam={iam}: {Gm[j].tolist()} -> {row} "
+                             f"expected {kinds[j][1]}", case)
     acc.sample({"member": m.desc(), "placement": placement})
 
 
